@@ -97,7 +97,8 @@ CHECKS = {
             "driver computes the theorem's hypotheses, so the theorem applies to that source.",
             "Partial: that the generator puts the gpuglmem placeholder before EVERY pointer into object memory is checked by the "
             "oracle on each generated API, not proved; real device compilers are absent (host compiler with the keywords defined "
-            "away).",
+            "away). The assembly done by the GPU contexts themselves (headers + accessor sources + kernel, specialised) is run "
+            "against recording stand-ins of pyopencl / cupy and compared with the cpu context's text (oracle, not a theorem).",
             "7/C15"),
     "C16": ("Lean 4 proof: equational characterisation of the two line passes (pass-through, only_for_context, include_file, "
             "block shape) and of the launch semantics (CUDA grid*block threads filtered by the guard = range n); exact-text tie; "
